@@ -1,10 +1,36 @@
 (** * C11 - displayed numbers are correctly rounded, exact when they can be.
-    Property theorems only; proofs live in Proofs/. *)
-From Coq Require Import List ZArith NArith Bool String.
-From RG Require Import Base.Str Base.Dec Base.Num Model.NumFmt.
+
+    "Every number shown is a faithful rendering of the true value: integers
+    are shown exactly; rationals whose denominator is one of
+    2,3,4,5,6,7,8,12,16 are shown exactly as a proper or mixed fraction in
+    lowest terms; every other value is shown in plain decimal notation (never
+    exponent form) correctly rounded to three significant figures, or to the
+    nearest integer once it has three or more integer digits, without
+    trailing zeros.  The shown text reads back, with the tool's own number
+    syntax, to a value within half a unit of the last shown digit."
+
+    Property theorems only; proofs live in Proofs/DecLemmas.v and
+    Proofs/NumFmtProofs.v.  Model: Model/NumFmt.v ([format_number], tied to
+    recipe_grid/number_formatting.py by the correspondence suite "numfmt") and
+    Model/NumParse.v (reader for the produced texts, after
+    recipe_grid/number_parser.py).  All theorems hold for EVERY non-negative
+    value: no upper bound on the magnitude is needed.
+
+    Vocabulary (Proofs/NumFmtProofs.v):
+    - [shown_places sf n d] : decimal places the code uses for x = n/d,
+      max 0 (sf - number of integer digits of floor x), no digits for floor x = 0;
+    - [rne_div a b] (Base/Num.v) : a/b rounded to the nearest integer, ties to even;
+    - [decade n d e] : 10^e <= n/d < 10^(e+1);
+    - [sig_places sf e] = max 0 (sf - 1 - e) : the decimal places at which sf
+      significant figures sit for a value in decade e;
+    - [dec_value text] = Some (m, k) : the plain decimal text denotes m / 10^k;
+    - [decimal_operand a] : the exact rational the decimal path renders (the
+      float itself, or float(Fraction) for a denominator that is not allowed). *)
+From Coq Require Import List ZArith NArith QArith Qabs Bool String Lia.
+From RG Require Import Base.Str Base.Dec Base.Num Gen.GenConsts
+  Model.NumFmt Model.NumParse Proofs.DecLemmas Proofs.NumFmtProofs.
 Import ListNotations.
 Open Scope Z_scope.
-Open Scope string_scope.
 
 (** Non-vacuity / smoke: the model computes the documented examples. *)
 Example C11_examples :
@@ -12,4 +38,365 @@ Example C11_examples :
   format_number (NFrac 7 4) = Some (s "1 3/4") /\
   format_number (NInt 1234) = Some (s "1234").
 Proof. vm_compute. repeat split; reflexivity. Qed.
+
+(** ** 1. Decimal text *)
+
+Theorem C11_dec_roundtrip : forall n : N, val_N (dec_N n) = n.
+Proof. exact val_N_dec_N. Qed.
+
+Theorem C11_dec_all_digits : forall n : N, all_digits (dec_N n) = true.
+Proof. exact all_digits_dec_N. Qed.
+
+Theorem C11_dec_no_leading_zero : forall n : N, hd 0%N (dec_N n) = 48%N -> n = 0%N.
+Proof. exact dec_N_no_leading_zero. Qed.
+
+Example C11_dec_no_leading_zero_ex : hd 0%N (dec_N 0) = 48%N /\ dec_N 0 = s "0".
+Proof. vm_compute. split; reflexivity. Qed.
+
+(** The fuel of [dec_N] is sufficient: every larger fuel gives the same text. *)
+Theorem C11_dec_fuel_sufficient : forall (n : N) (f : nat),
+  (n < 2 ^ N.of_nat f)%N -> (0 < f)%nat -> digits_fuel f n [] = dec_N n.
+Proof. exact dec_N_fuel_sufficient. Qed.
+
+Example C11_dec_fuel_sufficient_ex :
+  (12345 < 2 ^ N.of_nat 40)%N /\ (0 < 40)%nat /\ digits_fuel 40 12345 [] = s "12345".
+Proof. split; [reflexivity|]. split; [lia|]. vm_compute. reflexivity. Qed.
+
+(** The number of digits is the decimal length. *)
+Theorem C11_dec_length : forall n : N, n <> 0%N ->
+  exists k, List.length (dec_N n) = S k /\
+            (10 ^ N.of_nat k <= n)%N /\ (n < 10 ^ N.of_nat (S k))%N.
+Proof. exact dec_N_length. Qed.
+
+Example C11_dec_length_ex : 999%N <> 0%N /\ List.length (dec_N 999) = 3%nat /\ List.length (dec_N 1000) = 4%nat.
+Proof. vm_compute. repeat split; try reflexivity; discriminate. Qed.
+
+Theorem C11_digits_fixed_length : forall (k : nat) (n : N), List.length (digits_fixed k n) = k.
+Proof. exact digits_fixed_length. Qed.
+
+Theorem C11_digits_fixed_value : forall (k : nat) (n : N),
+  val_N (digits_fixed k n) = (n mod 10 ^ N.of_nat k)%N.
+Proof. exact val_N_digits_fixed. Qed.
+
+(** [rstrip("0")] keeps the value of the digits read as a fraction
+    [val / 10^length] (cross-multiplied) ... *)
+Theorem C11_rstrip0_value : forall x : str,
+  (val_N x * 10 ^ N.of_nat (List.length (rstrip0 x)) =
+   val_N (rstrip0 x) * 10 ^ N.of_nat (List.length x))%N.
+Proof. exact rstrip0_value. Qed.
+
+(** ... removes only zeros at the end, and leaves no '0' at the end. *)
+Theorem C11_rstrip0_suffix : forall x : str, exists k, x = rstrip0 x ++ repeat 48%N k.
+Proof. exact rstrip0_spec. Qed.
+
+Theorem C11_rstrip0_no_trailing_zero : forall x : str, last (rstrip0 x) 0%N <> 48%N.
+Proof. exact rstrip0_last. Qed.
+
+(** ** 2. Integers are shown exactly *)
+
+Theorem C11_int_exact : forall z : Z, 0 <= z ->
+  format_number (NInt z) = Some (dec_N (Z.to_N z)) /\
+  Z.of_N (val_N (dec_N (Z.to_N z))) = z /\
+  parse_number (dec_N (Z.to_N z)) = PInt (Z.to_N z).
+Proof. exact int_exact. Qed.
+
+Example C11_int_exact_ex :
+  0 <= 1000000000000000 /\ format_number (NInt 1000000000000000) = Some (s "1000000000000000").
+Proof. vm_compute. split; [discriminate|reflexivity]. Qed.
+
+(** ** 3. Fractions with an allowed denominator are shown exactly
+
+    For [Fraction(n, d)] (lowest terms, as Python guarantees) with an allowed
+    denominator other than 1: the text is ["i n'/d"] (when n > d) or ["n/d"],
+    the fractional part is proper ([0 < n' < d]) and in lowest terms, the
+    integer part is not zero, the value [i + n'/d] is exactly [n/d], and the
+    tool's fraction pattern reads the text back as exactly these numbers. *)
+Theorem C11_fraction_exact : forall (n : Z) (d : positive),
+  0 <= n -> Z.gcd n (Zpos d) = 1 -> d <> 1%positive ->
+  pos_in d allowed_denominators = true ->
+  0 < n /\
+  ((Zpos d < n /\
+    exists i n', 0 < i /\ 0 < n' < Zpos d /\ Z.gcd n' (Zpos d) = 1 /\
+      i * Zpos d + n' = n /\
+      format_number (NFrac n d) =
+        Some (dec_N (Z.to_N i) ++ [c_space] ++ dec_N (Z.to_N n') ++ [c_slash]
+              ++ dec_N (Npos d)) /\
+      frac_value (dec_N (Z.to_N i) ++ [c_space] ++ dec_N (Z.to_N n') ++ [c_slash]
+                  ++ dec_N (Npos d)) = Some (Z.to_N i, Z.to_N n', Npos d))
+   \/
+   (n < Zpos d /\
+    format_number (NFrac n d) = Some (dec_N (Z.to_N n) ++ [c_slash] ++ dec_N (Npos d)) /\
+    frac_value (dec_N (Z.to_N n) ++ [c_slash] ++ dec_N (Npos d))
+      = Some (0%N, Z.to_N n, Npos d))).
+Proof. exact fraction_exact. Qed.
+
+Example C11_fraction_exact_ex :
+  0 <= 43 /\ Z.gcd 43 12 = 1 /\ 12%positive <> 1%positive /\
+  pos_in 12 allowed_denominators = true /\
+  format_number (NFrac 43 12) = Some (s "3 7/12") /\
+  frac_value (s "3 7/12") = Some (3%N, 7%N, 12%N).
+Proof. vm_compute. repeat split; try reflexivity; discriminate. Qed.
+
+(** The value equation of the theorem above, over Q. *)
+Theorem C11_fraction_value_Q : forall (i n' n : Z) (d : positive),
+  i * Zpos d + n' = n -> (inject_Z i + (n' # d) == n # d)%Q.
+Proof. exact fraction_value_Q. Qed.
+
+Example C11_fraction_value_Q_ex : 3 * 12 + 7 = 43.
+Proof. reflexivity. Qed.
+
+(** ** 4. Everything else is plain decimal notation
+
+    The decimal path's text matches [[0-9]+(\.[0-9]*[1-9])?] : never an
+    exponent, no trailing zero, no trailing point ... *)
+Theorem C11_plain_decimal : forall (sf : nat) (n : Z) (d : positive), 0 <= n ->
+  plain_decimal (format_float_sf sf n d) = true.
+Proof. exact plain_decimal_shape. Qed.
+
+Example C11_plain_decimal_ex :
+  0 <= 25001 /\ format_float_sf 3 25001 10000 = s "2.5" /\
+  plain_decimal (s "2.5") = true /\ plain_decimal (s "2.50") = false /\
+  plain_decimal (s "2.") = false /\ plain_decimal (s "1e+16") = false.
+Proof. vm_compute. repeat split; try reflexivity; discriminate. Qed.
+
+(** ... and no superfluous leading zero. *)
+Theorem C11_no_leading_zero : forall (sf : nat) (n : Z) (d : positive), 0 <= n ->
+  let out := format_float_sf sf n d in
+  hd 0%N out = 48%N -> out = [48%N] \/ exists f, out = 48%N :: c_dot :: f.
+Proof. exact no_leading_zero. Qed.
+
+Example C11_no_leading_zero_ex :
+  0 <= 1 /\ format_float_sf 3 1 8 = s "0.125" /\ format_float_sf 3 1 80000 = s "0".
+Proof. vm_compute. repeat split; try reflexivity; discriminate. Qed.
+
+(** Which inputs take the decimal path, and that [format_number] then is
+    [format_float] of the exact operand. *)
+Theorem C11_decimal_path : forall (a : num) (n : Z) (d : positive),
+  decimal_operand a = Some (n, d) ->
+  0 <= n /\ format_number a = Some (format_float_sf significant_figures n d).
+Proof. exact decimal_path. Qed.
+
+Example C11_decimal_path_ex :
+  decimal_operand (NFrac 1 9) = Some (2001599834386887, Z.to_pos (2 ^ 54)) /\
+  decimal_operand (NFloat 5 (-1)) = Some (5, 2%positive).
+Proof. vm_compute. split; reflexivity. Qed.
+
+(** Every formatted number takes exactly one of the three paths. *)
+Theorem C11_paths : forall (a : num) (out : str), format_number a = Some out ->
+  (exists z, 0 <= z /\ (a = NInt z \/ a = NFrac z 1) /\ out = dec_N (Z.to_N z))
+  \/ (exists n d, a = NFrac n d /\ 0 <= n /\ d <> 1%positive /\
+        pos_in d allowed_denominators = true)
+  \/ (exists n d, decimal_operand a = Some (n, d) /\
+        out = format_float_sf significant_figures n d).
+Proof. exact format_number_paths. Qed.
+
+Example C11_paths_ex : format_number (NFrac 22 7) = Some (s "3 1/7").
+Proof. vm_compute. reflexivity. Qed.
+
+(** ** 5. Correctly rounded
+
+    The shown text denotes [m / 10^k] with
+    [m / 10^k = rne (x * 10^fd) / 10^fd],  [fd = shown_places sf n d]:
+    x rounded half-even at [fd] decimal places.  This includes the carry
+    cases (9.995, 99.95, 0.9996) where the code falls through to
+    [round(number)]. *)
+Theorem C11_correctly_rounded : forall (sf : nat) (n : Z) (d : positive), 0 <= n ->
+  let fd := shown_places sf n d in
+  exists m k, dec_value (format_float_sf sf n d) = Some (m, k) /\
+    (k <= fd)%nat /\
+    Z.of_N m * 10 ^ Z.of_nat fd =
+    rne_div (n * 10 ^ Z.of_nat fd) (Zpos d) * 10 ^ Z.of_nat k.
+Proof. exact correctly_rounded. Qed.
+
+(** 99.95 (the binary64 value, slightly above) carries into "100";
+    9.995 (slightly below) shows "9.99"; the exact tie 0.0625 goes to even. *)
+Example C11_correctly_rounded_ex :
+  format_number (NFloat 7033355980557517 (-46)) = Some (s "100") /\
+  format_number (NFloat 5626684784446013 (-49)) = Some (s "9.99") /\
+  format_float_sf 3 9995 1000 = s "10" /\
+  format_float_sf 3 625 10000 = s "0.062" /\
+  shown_places 3 9995 1000 = 2%nat /\ dec_value (s "9.99") = Some (999%N, 2%nat).
+Proof. vm_compute. repeat split; reflexivity. Qed.
+
+(** The same over Q. *)
+Theorem C11_correctly_rounded_Q : forall (sf : nat) (n : Z) (d : positive), 0 <= n ->
+  exists q, dec_Q (format_float_sf sf n d) = Some q /\
+            (q == round_places (shown_places sf n d) (n # d))%Q.
+Proof. exact correctly_rounded_Q. Qed.
+
+Example C11_correctly_rounded_Q_ex :
+  dec_Q (format_float_sf 3 2675 1000) = Some (268 # 100)%Q /\
+  round_places 2 (2675 # 1000) = (268 # 100)%Q.
+Proof. vm_compute. split; reflexivity. Qed.
+
+(** The lemma behind the carry cases: when the fixed-point rendering of the
+    fractional part [fr/d] rounds to 0, resp. to a full unit [p = 10^fd],
+    [round(number)] is the integer part, resp. the integer part plus one. *)
+Theorem C11_carry_consistent : forall fr p d i : Z,
+  0 < d -> 0 <= fr < d -> 2 <= p ->
+  (rne_div (fr * p) d = 0 -> rne_div (i * d + fr) d = i) /\
+  (rne_div (fr * p) d = p -> rne_div (i * d + fr) d = i + 1).
+Proof.
+  intros fr p d i Hd Hfr Hp. split.
+  - exact (carry_zero fr p d i Hd Hfr Hp).
+  - exact (carry_full fr p d i Hd Hfr Hp).
+Qed.
+
+Example C11_carry_consistent_ex :
+  0 < 1000 /\ 0 <= 995 < 1000 /\ 2 <= 100 /\
+  rne_div (995 * 100) 1000 = 100 /\ rne_div (9 * 1000 + 995) 1000 = 9 + 1.
+Proof. vm_compute. repeat split; try reflexivity; discriminate. Qed.
+
+(** [rne_div] is rounding to nearest, ties to even, and is the only such. *)
+Theorem C11_rne_div_spec : forall a b : Z, 0 < b ->
+  2 * a - b <= 2 * (rne_div a b * b) <= 2 * a + b /\
+  ((2 * (rne_div a b * b) = 2 * a + b \/ 2 * (rne_div a b * b) = 2 * a - b) ->
+   Z.even (rne_div a b) = true).
+Proof. exact rne_div_spec. Qed.
+
+Theorem C11_rne_div_unique : forall a b q : Z, 0 < b ->
+  2 * a - b <= 2 * (q * b) <= 2 * a + b ->
+  ((2 * (q * b) = 2 * a + b \/ 2 * (q * b) = 2 * a - b) -> Z.even q = true) ->
+  rne_div a b = q.
+Proof. exact rne_div_unique. Qed.
+
+Example C11_rne_div_ex : 0 < 2 /\ rne_div 5 2 = 2 /\ rne_div 7 2 = 4 /\ rne_div 8 3 = 3.
+Proof. vm_compute. repeat split; reflexivity. Qed.
+
+(** ** 6. Three significant figures from one tenth upwards
+
+    For x >= 1/10 in decade e (e >= -1) the places used are exactly
+    [max 0 (sf - 1 - e)]: with 5., x is x rounded to sf significant figures,
+    or to the nearest integer once it has sf or more integer digits. *)
+Theorem C11_three_sig_figs : forall (sf : nat) (n : Z) (d : positive),
+  0 <= n -> Zpos d <= 10 * n ->
+  exists e, -1 <= e /\ decade n d e /\ shown_places sf n d = sig_places sf e.
+Proof. exact three_sig_figs. Qed.
+
+Example C11_three_sig_figs_ex :
+  0 <= 1234567 /\ 1000 <= 10 * 1234567 /\ decade 1234567 1000 3 /\
+  shown_places 3 1234567 1000 = 0%nat /\ sig_places 3 3 = 0%nat /\
+  format_float_sf 3 1234567 1000 = s "1235" /\
+  decade 1 10 (-1) /\ shown_places 3 1 10 = 3%nat /\ sig_places 3 (-1) = 3%nat.
+Proof. vm_compute. repeat split; try reflexivity; discriminate. Qed.
+
+(** The number of integer digits counted by the code is the decimal length
+    of the integer part. *)
+Theorem C11_int_digits : forall i : Z, 0 < i ->
+  exists k, int_digits i = S k /\ 10 ^ Z.of_nat k <= i < 10 ^ Z.of_nat (S k).
+Proof. exact int_digits_spec. Qed.
+
+Example C11_int_digits_ex : 0 < 999 /\ int_digits 999 = 3%nat /\ int_digits 0 = 0%nat.
+Proof. vm_compute. repeat split; reflexivity. Qed.
+
+(** ** 7. Below one tenth the claim "three significant figures" is FALSE
+
+    Full statement that fails:
+      forall n d e, 0 < n -> decade n d e -> shown_places 3 n d = sig_places 3 e
+    (and hence "value shown = x rounded to 3 significant figures").
+    Witness: the binary64 value written 0.012345 is in decade -2, three
+    significant figures need 4 places (0.0123) but 3 places are used and
+    "0.012" is shown. *)
+Theorem C11_sigfig_below_tenth_refuted :
+  exists m e n d ex out mm k,
+    0 < m /\ to_frac (NFloat m e) = (n, d) /\
+    10 * n < Zpos d /\ decade n d ex /\
+    format_number (NFloat m e) = Some out /\
+    dec_value out = Some (mm, k) /\
+    shown_places 3 n d <> sig_places 3 ex /\
+    Z.of_N mm * 10 ^ Z.of_nat (sig_places 3 ex) <>
+    rne_div (n * 10 ^ Z.of_nat (sig_places 3 ex)) (Zpos d) * 10 ^ Z.of_nat k.
+Proof. exact sigfig_below_tenth_refuted. Qed.
+
+(** Same with exact rational operands: 12345/10^6 is shown "0.012" (3 s.f.:
+    0.0123); 45/10^5 = 0.00045 is shown "0" (3 s.f.: 0.00045), the case
+    pinned by the project's own test-suite. *)
+Example C11_sigfig_below_tenth_examples :
+  format_float_sf 3 12345 1000000 = [48; 46; 48; 49; 50]%N /\
+  decade 12345 1000000 (-2) /\ sig_places 3 (-2) = 4%nat /\
+  rne_div (12345 * 10 ^ 4) 1000000 = 123 /\
+  format_float_sf 3 45 100000 = [48]%N /\
+  decade 45 100000 (-4) /\ sig_places 3 (-4) = 6%nat /\
+  rne_div (45 * 10 ^ 6) 100000 = 450.
+Proof. exact sigfig_below_tenth_examples. Qed.
+
+(** ** 8. Reading back
+
+    |shown - x| <= 1/2 * 10^-fd  (cross-multiplied; [k <= fd] is the position
+    of the last shown digit, so this is at most half a unit of that digit). *)
+Theorem C11_readback : forall (sf : nat) (n : Z) (d : positive), 0 <= n ->
+  let fd := shown_places sf n d in
+  exists m k, dec_value (format_float_sf sf n d) = Some (m, k) /\
+    (k <= fd)%nat /\
+    2 * Z.abs (Z.of_N m * Zpos d * 10 ^ Z.of_nat fd
+               - n * 10 ^ Z.of_nat k * 10 ^ Z.of_nat fd)
+      <= Zpos d * 10 ^ Z.of_nat k.
+Proof. exact readback. Qed.
+
+Example C11_readback_ex :
+  0 <= 314159 /\ format_float_sf 3 314159 100000 = s "3.14" /\
+  dec_value (s "3.14") = Some (314%N, 2%nat) /\ shown_places 3 314159 100000 = 2%nat.
+Proof. vm_compute. repeat split; try reflexivity; discriminate. Qed.
+
+Theorem C11_readback_Q : forall (sf : nat) (n : Z) (d : positive), 0 <= n ->
+  exists q, dec_Q (format_float_sf sf n d) = Some q /\
+            (Qabs (q - (n # d)) <= 1 # (2 * pow10pos (shown_places sf n d)))%Q.
+Proof. exact readback_Q. Qed.
+
+Example C11_readback_Q_ex :
+  dec_Q (format_float_sf 3 314159 100000) = Some (314 # 100)%Q /\
+  (1 # (2 * pow10pos (shown_places 3 314159 100000)) = 1 # 200)%Q.
+Proof. vm_compute. split; reflexivity. Qed.
+
+(** The whole property in one statement: whatever [format_number] shows,
+    [number_parser.number] reads it back as a value that is EXACTLY the input
+    (ints, fractions with an allowed denominator) or within half a unit of
+    the last decimal place used of the exact operand (decimal path).
+    [num_wf]: a Fraction is in lowest terms. *)
+Theorem C11_readback_number : forall (a : num) (out : str),
+  num_wf a -> format_number a = Some out ->
+  exists q, parsed_Q (parse_number out) = Some q /\
+    match decimal_operand a with
+    | None => (q == to_Q a)%Q
+    | Some (n, d) =>
+        (Qabs (q - (n # d)) <= 1 # (2 * pow10pos (shown_places significant_figures n d)))%Q
+    end.
+Proof. exact readback_number. Qed.
+
+Example C11_readback_number_ex :
+  num_wf (NFrac 43 12) /\ format_number (NFrac 43 12) = Some (s "3 7/12") /\
+  parse_number (s "3 7/12") = PFrac 3 7 12 /\
+  num_wf (NFrac 1 9) /\ format_number (NFrac 1 9) = Some (s "0.111") /\
+  parse_number (s "0.111") = PDec 111 3.
+Proof. vm_compute. repeat split; reflexivity. Qed.
+
 Print Assumptions C11_examples.
+Print Assumptions C11_dec_roundtrip.
+Print Assumptions C11_dec_all_digits.
+Print Assumptions C11_dec_no_leading_zero.
+Print Assumptions C11_dec_fuel_sufficient.
+Print Assumptions C11_dec_length.
+Print Assumptions C11_digits_fixed_length.
+Print Assumptions C11_digits_fixed_value.
+Print Assumptions C11_rstrip0_value.
+Print Assumptions C11_rstrip0_suffix.
+Print Assumptions C11_rstrip0_no_trailing_zero.
+Print Assumptions C11_int_exact.
+Print Assumptions C11_fraction_exact.
+Print Assumptions C11_fraction_value_Q.
+Print Assumptions C11_plain_decimal.
+Print Assumptions C11_no_leading_zero.
+Print Assumptions C11_decimal_path.
+Print Assumptions C11_paths.
+Print Assumptions C11_correctly_rounded.
+Print Assumptions C11_correctly_rounded_Q.
+Print Assumptions C11_carry_consistent.
+Print Assumptions C11_rne_div_spec.
+Print Assumptions C11_rne_div_unique.
+Print Assumptions C11_three_sig_figs.
+Print Assumptions C11_int_digits.
+Print Assumptions C11_sigfig_below_tenth_refuted.
+Print Assumptions C11_sigfig_below_tenth_examples.
+Print Assumptions C11_readback.
+Print Assumptions C11_readback_Q.
+Print Assumptions C11_readback_number.
